@@ -376,6 +376,19 @@ def replay_tower(res, config="A"):
     return False
 
 
+def include_in(chk):
+    """this check's obligations registered inside a check of a layer above (framework.Check.include)"""
+    prog = build.load_program("A", files=["src/bls12_381/fq2.cpp", "src/bls12_381/fq6.cpp", "src/bls12_381/fq12.cpp",
+                                           "src/bls12_381/fq12_cyclotomic.cpp", "src/bls12_381/fq.cpp"], tag="c04")
+    prog.demangle_all()
+    chk.replayer = replay_tower
+    register(chk, prog, chk.tier == "thorough")
+    sys.path.insert(0, os.path.dirname(os.path.abspath(__file__)))
+    import c04_more
+    c04_more.prog()
+    c04_more.register(chk)
+
+
 def main(argv=None):
     chk = Check("C04", "proof", argv)
     chk.replayer = replay_tower
@@ -398,6 +411,9 @@ def main(argv=None):
                    "norm of a non-zero element of a field extension is non-zero (irreducibility ground-checked)",
                    "C02: Fq operations are exact (layer below)", "clang -O1 vs shipped -Ofast (T11)"]
     chk.assumptions = ["Fq layer (Fp<384>::add/subtract/multiply/square/multiply2/negate/copy/is_zero/equal, fp_inverse) behaves as the field Fq: proved by C02/C03"]
+    # lower layers whose specifications this check relies on: their obligations are part of this check's claim (framework.Check.include)
+    for dep in ['C02']:
+        chk.include(dep)
     chk.run()
     chk.finish()
 
